@@ -707,7 +707,7 @@ def correspondence(chk, thorough):
                   "".join(rng.choice("aab**?.") for _ in range(rng.randrange(0, 8)))))
     pats |= {("", ""), ("", "*"), ("a", ""), ("", "?"), ("aaaaaaaaab", "*a*a*a*a*b"), ("aaaaaaaaaa", "*a*a*a*a*b"), ("abc", "a**c"), ("*", "*"), ("a*", "a*")}
     for name, pat in sorted(pats):
-        req = mk_req('"%s" == "%s"' % (name, pat), "", "yaml", "json", deadline_ms=8000)
+        req = mk_req('"%s" == "%s"' % (name, pat), "0\n", "yaml", "json", deadline_ms=8000)
         cs.append(("(%s, %s)" % (vlib.coq_str(name), vlib.coq_str(pat)), req, lambda t: "t" if t.strip() == "true" else "f"))
     groups.append(("glob", "c_match", cs))
 
@@ -731,7 +731,7 @@ def correspondence(chk, thorough):
     cs = []
     for n in [0, 1, 2, 3, 10, 1000, -1, -5, 10000000, 10000001, 9999999, 4294967296, -9223372036854775808, 9223372036854775807] + \
              [rng.randrange(-50, 3000) for _ in range(300 if thorough else 40)]:
-        req = mk_req('"ab" * %d | length' % n, "", "yaml", "json")
+        req = mk_req('"ab" * %d | length' % n, "0\n", "yaml", "json")
         cs.append(("(%s, %s)" % (zc(2), zc(n)), req, lambda x: x.strip()))
     groups.append(("repeat", "c_repeat", cs))
 
